@@ -106,7 +106,9 @@ Init == prog = <<>> /\ ks = EmptyKS
 Last == C("KEYS", <<S("*")>>)
 Next == /\ Len(prog) < (IF Sim THEN SimLen ELSE MaxLen)
         /\ \E c \in (IF Sim /\ Len(prog) = SimLen - 1 THEN {Last} ELSE Cmds) :
-              /\ (c.name = "SLEEP" => \E k \in DOMAIN ks : ks[k].x > 0 /\ ks[k].x <= 1000)
+              \* a key about to expire is never observed before the pause: real time runs ahead of the model clock by an
+              \* unknown amount (RedisModel!Slack), so whether such a key is still there is not determined
+              /\ (c.name = "SLEEP" <=> \E k \in DOMAIN ks : ks[k].x > 0 /\ ks[k].x <= 1000)
               /\ prog' = Append(prog, c) /\ ks' = Run(ks, c)
 Spec == Init /\ [][Next]_vars
 
